@@ -7,9 +7,13 @@
 #include <stdint.h>
 #include <limits.h>
 
-#ifndef ESZ
-#define ESZ 4                       /* sizeof (value_type) of the instantiation */
+#ifndef ESZ_LOG2
+#define ESZ_LOG2 2
 #endif
+#define ESZ (1ul << ESZ_LOG2)        /* sizeof (value_type) of the instantiation: a power of two, so that the
+                                        cell arithmetic below is shifts and masks (SAT-friendly), never a divider */
+#define DIVESZ(x) ((x) >> ESZ_LOG2)
+#define ALIGNED(x) (((x) & (ESZ - 1)) == 0)
 typedef struct Elem { unsigned char b[ESZ]; } Elem;     /* payload bytes are never read or written (r15) */
 
 struct Alloc   { int id; };                              /* allocator state: identity only */
@@ -66,17 +70,20 @@ extern unsigned long ALLOC_MAX;      /* allocator_traits::max_size () */
 #endif
 
 /* ---- watched cells (section 4.1): NW arbitrary cells + one tracked temporary cell ---------- */
-#define NW 3
-#define WT 3                          /* index of the tracked temporary cell (stack_/heap_temporary) */
+#define NW 2
+#define WT 2                          /* index of the tracked temporary cell (stack_/heap_temporary) */
 extern Elem *WP[NW + 1];              /* never assigned after the harness chose them (WP[WT] excepted) */
-extern int   WL[NW + 1];              /* an element object is alive in the cell            (0/1) */
-extern int   WMF[NW + 1];             /* ... whose value is a moved-from (unspecified) one (0/1) */
-extern int   WV[NW + 1];              /* ... otherwise this abstract value */
-extern int   WTOUCH[NW + 1];          /* the cell was named by an element operation during the call */
+extern int   WS[NW + 1];              /* state of the cell: S_RAW = no element object alive there;
+                                         S_MF = a live element with a moved-from (unspecified) value;
+                                         anything else = a live element with that abstract value */
+#define S_RAW INT_MIN
+#define S_MF  (INT_MIN + 1)
+#define LIVE(i) (WS[i] != S_RAW)
+#define RAW(i)  (WS[i] == S_RAW)
 /* ---- watched block ------------------------------------------------------------------------- */
 extern Elem *WB; extern int WBL; extern unsigned long WBN; extern int WBA;
 /* ---- meters --------------------------------------------------------------------------------- */
-extern unsigned long elem_ops, alloc_calls, dealloc_calls, gen_calls;
+extern unsigned long alloc_calls, dealloc_calls, gen_calls;
 extern unsigned int  used_kinds;
 enum { K_DEFAULT = 1, K_COPY = 2, K_MOVE = 4, K_ASSIGN_COPY = 8, K_ASSIGN_MOVE = 16, K_DESTROY = 32,
        K_SWAP = 64, K_CONVERT = 128, K_COMPARE = 256, K_BYTES = 512 };
@@ -86,8 +93,11 @@ enum { K_DEFAULT = 1, K_COPY = 2, K_MOVE = 4, K_ASSIGN_COPY = 8, K_ASSIGN_MOVE =
 #define SAMEOBJ(p, q) __CPROVER_same_object ((p), (q))
 /* p is the address of an element cell inside [lo, lo + n) */
 #define IN_RANGE(p, lo, n) \
-  (SAMEOBJ ((p), (lo)) && OFF (p) >= OFF (lo) && (OFF (p) - OFF (lo)) % ESZ == 0 && (OFF (p) - OFF (lo)) / ESZ < (unsigned long) (n))
-#define IDX(p, lo)    ((OFF (p) - OFF (lo)) / ESZ)
+  (SAMEOBJ ((p), (lo)) && OFF (p) >= OFF (lo) && ALIGNED (OFF (p) - OFF (lo)) && OFF (p) - OFF (lo) < ((unsigned long) (n) << ESZ_LOG2))
+/* p is the address of an element cell inside [lo, hi) given as two pointers into one object */
+#define IN_PTRS(p, lo, hi) \
+  (SAMEOBJ ((p), (lo)) && OFF (p) >= OFF (lo) && OFF (p) < OFF (hi) && ALIGNED (OFF (p) - OFF (lo)))
+#define IDX(p, lo)    DIVESZ (OFF (p) - OFF (lo))
 #define IFF(a, b)     (((a) != 0) == ((b) != 0))
 #define IMPLIES(a, b) (!(a) || (b))
 #define PTR_REL(a, op, b) PTR_REL_##op ((a), (b))
